@@ -42,6 +42,9 @@ def run(chk):
         if mode in ("chars", "lines"):
             alpha = ["a", "é", "😎", "\0", "\r", "b"]
             recs = ["".join(rng.choice(alpha) for _ in range(rng.randint(0, 4))).encode() for _ in range(rng.randint(1, 4))]
+            if mode == "lines" and rng.random() < 0.15:
+                k = rng.randrange(len(recs))
+                recs[k] = recs[k] + b"\xff"          # a line that is not UTF-8: rejected in both modes
         else:
             alpha = [bytes([x]) for x in d] * 2 + [b"x", b"y", b"\0", b"\r", b"\xff"]
             recs = [b"".join(rng.choice(alpha) for _ in range(rng.randint(0, 7))) for _ in range(rng.randint(1, 4))]
